@@ -137,6 +137,32 @@ def handle (op : String) (args : List String) : Option String :=
     let r ← kvBytes args "remote"
     let t := newSessionTracker l r
     some s!"ok offerer={if t.offerer then 1 else 0} link={showOpt t.linkPeer} pub={showOpt t.signalPub}"
+  | "addref" => do
+    -- local: raw peer ID of the transport; remote: the string handed to addSessionTrackerRef
+    let l ← kvBytes args "local"
+    let r ← kvBytes args "remote"
+    match addSessionTrackerRef l r with
+    | none => some "err"
+    | some t => some s!"ok key={hexOrDash t.key} offerer={if t.offerer then 1 else 0} link={showOpt t.linkPeer} pub={showOpt t.signalPub}"
+  | "linkaccept" => do
+    -- the tracker `local` holds for `signaled`; its Quic session completes with `actual` iff the
+    -- TLS layer's expected peer (what the tracker hands over) is `actual` (C03)
+    let l ← kvBytes args "local"
+    let sgn ← kvBytes args "signaled"
+    let act ← kvBytes args "actual"
+    match addSessionTrackerRef l (Bifrost.Codec.idB58Encode sgn) with
+    | none => some "err"
+    | some t => some (if t.sinks.quicExpectedPeer == some act then "ok 1" else "ok 0")
+  | "role" => do
+    -- local / remote: peer ID strings; the signal the running tracker of local for remote receives
+    let l ← kvBytes args "local"
+    let r ← kvBytes args "remote"
+    let ty ← kvBytes args "type"
+    let body ← match kv args "kind" with
+      | some "req" => some (Body.requestOffer 1)
+      | some "sdp" => some (Body.sdp { sdpType := ty })
+      | _ => none
+    some (if roleAccepts (isOfferer l r) body then "accepted" else "refused")
   | _ => none
 
 end Driver.Encrypt
